@@ -196,7 +196,7 @@ def build():
                      "kind_free_text": "Rocq/Coq 8.16.1 development (coq_makefile, full .vo build); models tied to /repo by Go correspondence harnesses built with -overlay and by translators"}],
         "checks": checks,
         "not_applicable": na,
-        "notes": "See DESIGN.md. Known findings: KNOWN_FINDINGS.jsonl.",
+        "notes": "See DESIGN.md. Known findings: known/<PID>.jsonl, one file per property (KNOWN_FINDINGS.jsonl is the shared file for entries that span properties; it is empty). Repairs: fixes/Fxx.diff and .md; seeded changes and their verdicts: seeded/SUMMARY.md.",
     }
     with open(os.path.join(ROOT, "MANIFEST.json"), "w") as f:
         json.dump(m, f, indent=1)
